@@ -57,11 +57,19 @@ func (inv *Invoice) scenarioSummary() *tax.ScenarioSummary {
 func (inv *Invoice) removePreviousScenarioNotes(ss *tax.ScenarioSet) {
 	for _, sn := range ss.Notes() {
 		n := org.NoteFromScenario(sn)
-		for i, n2 := range inv.Notes {
-			if n.SameAs(n2) {
-				// remove from array
-				inv.Notes = append(inv.Notes[:i], inv.Notes[i+1:]...)
+		// Build a new list instead of deleting while iterating, which
+		// went out of range when more than one note matched.
+		var kept []*org.Note
+		removed := false
+		for _, n2 := range inv.Notes {
+			if n2 != nil && n.SameAs(n2) {
+				removed = true
+				continue
 			}
+			kept = append(kept, n2)
+		}
+		if removed {
+			inv.Notes = kept
 		}
 	}
 }
@@ -77,7 +85,7 @@ func (inv *Invoice) prepareScenarios() error {
 		n := org.NoteFromScenario(sn)
 		// make sure we don't already have the same note in the invoice
 		for _, n2 := range inv.Notes {
-			if n.SameAs(n2) {
+			if n2 != nil && n.SameAs(n2) {
 				n = nil
 				break
 			}
